@@ -21,10 +21,13 @@ def toml_str(s):
 
 
 def toml_key(k):
-    """table key (a file path): literal string; backslash, single quote and control characters are not
-    expressible reliably with toml 0.10.2 and are rejected here"""
-    assert "'" not in k and "\\" not in k and all(ord(c) >= 0x20 and c != "\x7f" for c in k), k
-    return "'" + k + "'"
+    """table key (a file path): literal string, or a basic string when the name contains a single quote (names with
+    both quote kinds, a trailing backslash or control characters are not expressible reliably with toml 0.10.2)"""
+    assert all(ord(c) >= 0x20 and c != "\x7f" for c in k) and not k.endswith("\\"), k
+    if "'" not in k:
+        return "'" + k + "'"
+    assert '"' not in k and "\\" not in k, k
+    return '"' + k + '"'
 
 
 def toml_config(spec, section="bumpver"):
